@@ -10,6 +10,7 @@ namespace Pcore.Format
 def XVal.isLeaf : XVal → Bool
   | .array _ | .hash _ | .obj _ _ => false
   | .typ _ (_ :: _) => false
+  | .talias _ _ | .otype _ _ => false
   | _ => true
 
 theorem typeFinish_text_reported (f : Fmt) (name ps : Str) (c : Code) : typeFinish f name (.text ps) ≠ .reported c := by
@@ -52,6 +53,8 @@ theorem fmtX_reported_leaf {κ : Type} (ks : KeySys κ) (io : FloatIO) (m : GMap
         simp only [isTypeLetter, Bool.not_eq_true', Bool.or_eq_false_iff, decide_eq_false_iff_not] at hl
         simp [acceptsX, modelLettersX, XVal.kind, hl.1, hl.2]
       · exact absurd h (typeFinish_text_reported _ _ _ _)
+  | talias name r => simp [XVal.isLeaf] at hv
+  | otype name ih => simp [XVal.isLeaf] at hv
   | obj name es => simp [XVal.isLeaf] at hv
   | array vs => simp [XVal.isLeaf] at hv
   | hash es => simp [XVal.isLeaf] at hv
@@ -78,6 +81,11 @@ theorem fmtX_of_not_accepts {κ : Type} (ks : KeySys κ) (io : FloatIO) (m : GMa
     simp [acceptsX, modelLettersX, XVal.kind] at h
     have hl : isTypeLetter (getG ks m (.typ name ps)).f.letter = false := by simp [isTypeLetter, h]
     cases ps <;> simp only [fmtX, hl, Bool.not_false, if_true]
+  | talias name r => simp [acceptsX, modelLettersX, XVal.kind] at h
+  | otype name ih =>
+    simp [acceptsX, modelLettersX, XVal.kind] at h
+    have hl : isTypeLetter (getG ks m (.otype name ih)).f.letter = false := by simp [isTypeLetter, h]
+    simp only [fmtX, hl, Bool.not_false, if_true]
   | obj name es => simp [XVal.isContainer] at hv
   | array vs => simp [XVal.isContainer] at hv
   | hash es => simp [XVal.isContainer] at hv
@@ -112,9 +120,14 @@ theorem typeFinish_width (f : Fmt) (name : Str) (r : Res) (w : Nat) (hw : f.widt
 /-- the kinds of the extended model whose arms apply the string flags: SemVer, URI, SemVerRange (every letter they format, after
     fix 5c2f826), Type -/
 theorem fmtX_width_flagged {κ : Type} (ks : KeySys κ) (io : FloatIO) (m : GMap κ) (ind : Ind) (v : XVal) (w : Nat)
-    (hk : v.kind = .semver ∨ v.kind = .uri ∨ v.kind = .semverRange ∨ v.kind = .typ)
+    (hk : v.kind = .semver ∨ v.kind = .uri ∨ v.kind = .semverRange ∨ v.kind = .typ ∨ v.kind = .otype)
     (hw : (getG ks m v).f.width = some w) (s : Str) (h : fmtX ks io m ind v = .text s) : w ≤ s.length := by
   cases v with
+  | otype name ih =>
+    simp only [fmtX] at h
+    split at h
+    · cases h
+    · exact typeFinish_width _ _ _ w hw s h
   | semver t =>
     simp only [fmtX, fmtSemVer] at h
     split at h
@@ -286,6 +299,38 @@ theorem fmtX_typ {κ : Type} (ks : KeySys κ) (io : FloatIO) (m : GMap κ) (ind 
     fmtX ks io m ind (.typ name (p :: ps)) =
       typeFinish (getG ks m (.typ name (p :: ps))).f name (fmtX ks io m ind.ctxSubsequent (.array (p :: ps))) := by
   simp only [fmtX, hl, Bool.not_true, Bool.false_eq_true, if_false]
+
+/-- a type alias is its name, whatever the letter and the flags — except under `%#b` -/
+theorem fmtX_alias {κ : Type} (ks : KeySys κ) (io : FloatIO) (m : GMap κ) (ind : Ind) (name : Str) (r : XVal)
+    (hn : name ≠ "UnresolvedAlias".toList)
+    (hb : ¬ ((getG ks m (.talias name r)).f.alt = true ∧ (getG ks m (.talias name r)).f.letter = 'b')) :
+    fmtX ks io m ind (.talias name r) = .text name := by
+  simp only [fmtX, hn, if_false]
+  split
+  · rfl
+  · rename_i h
+    exfalso
+    apply hb
+    simpa using h
+
+/-- a named object type is its name (with `#s` quoting and the string flags) -/
+theorem fmtX_otype_named {κ : Type} (ks : KeySys κ) (io : FloatIO) (m : GMap κ) (ind : Ind) (name : Str) (ih : List OEntry)
+    (hn : name ≠ []) (hl : isTypeLetter (getG ks m (.otype name ih)).f.letter = true) :
+    fmtX ks io m ind (.otype name ih) = typeFinish (getG ks m (.otype name ih)).f [] (.text name) := by
+  have : name.isEmpty = false := by cases name <;> simp at hn ⊢
+  simp only [fmtX, hl, this, Bool.not_true, Bool.not_false, Bool.false_eq_true, if_false, if_true]
+
+/-- an anonymous object type is `Object[{` … `}]` around the entries of its init hash, one level in (two for the members of
+    `attributes` / `functions`), with `#s` quoting and the string flags on the whole -/
+theorem fmtX_otype_anon {κ : Type} (ks : KeySys κ) (io : FloatIO) (m : GMap κ) (ind : Ind) (ih : List OEntry)
+    (hl : isTypeLetter (getG ks m (.otype [] ih)).f.letter = true) :
+    fmtX ks io m ind (.otype [] ih) =
+      typeFinish (getG ks m (.otype [] ih)).f []
+        ((otypeEntries ks io m (cfOfG ks (getG ks m (.otype [] ih))) (getG ks m (.otype [] ih)).f
+            (ind.increase (getG ks m (.otype [] ih)).f.alt)
+            ((ind.increase (getG ks m (.otype [] ih)).f.alt).increase (getG ks m (.otype [] ih)).f.alt) true ih).bind fun s =>
+          .text ("Object[{".toList ++ s ++ (if (getG ks m (.otype [] ih)).f.alt then '\n' :: ind.padding else []) ++ "}]".toList)) := by
+  simp only [fmtX, hl, Bool.not_true, Bool.false_eq_true, if_false, List.isEmpty_nil, Bool.not_true]
 
 /-- the letter of a container is checked before anything else -/
 theorem fmtX_array_unsupported {κ : Type} (ks : KeySys κ) (io : FloatIO) (m : GMap κ) (ind : Ind) (vs : List XVal)
